@@ -44,6 +44,9 @@ def check(run, prog, tier):
     rule_E(run, prog)
     run.rule("C10-G", "the electronic dipole of an element is that of the two levels between which the molecule changes", minimum=1)
     rule_G(run, prog)
+    run.rule("C10-H", "the electronic level that selects a molecule's sub-modes is read at the molecule's position in the "
+                      "aggregate", minimum=1)
+    rule_H(run, prog)
     run.rule("C10-F", "what the aggregate calls on its molecules exists in Molecule (modes are declared through these calls)", minimum=25)
     rule_F(run, prog)
 
@@ -488,3 +491,64 @@ def rule_G(run, prog):
                    message="transition_dipole takes %s for every pair of states: the levels are not read from the electronic "
                            "signatures of the two states at the molecule that changes, so for a molecule with more than two levels "
                            "the 1->2 and 0->2 elements carry the 0->1 dipole" % norm(c), loc=f.loc(c), sample={"call": norm(c)})
+
+
+def rule_H(run, prog):
+    """'For all numbers of modes per molecule': the vibrational sub-modes of an electronic state are those of each molecule
+    in the electronic level that molecule has in the state, elsignature[position of the molecule in aggregate.monomers].
+    In ElectronicState.__init__ the index into the signature next to get_SubMode is the position of the molecule: the
+    loop runs over aggregate.monomers itself (or enumerate of it) and the index is the enumeration index, or a counter
+    that starts at 0 and is advanced exactly once per molecule, unconditionally.  Counting only some of the molecules
+    (those with modes) shifts the levels of all later molecules."""
+    rid = "C10-H"
+    f = prog.func("quantarhei.builders.aggregate_states.ElectronicState.__init__")
+    prog.consulted.add(f.relpath)
+    calls = [c for c in walk_no_nested(f.node) if isinstance(c, ast.Call) and call_name(c) == "get_SubMode" and c.args]
+    if not calls:
+        raise AnalysisError("ElectronicState.__init__: get_SubMode call not found")
+    from ..loader import parents_map
+    pm = parents_map(f.node)
+    for c in calls:
+        arg = c.args[0]
+        idx = arg.slice if isinstance(arg, ast.Subscript) else None
+        ok, why = False, "the level is not read from the signature by an index"
+        if isinstance(idx, ast.Name):
+            # the loop over the molecules
+            node, loop = c, None
+            while node is not None and node is not f.node:
+                p_ = pm.get(node)
+                if isinstance(p_, ast.For):
+                    it = p_.iter
+                    src = it.args[0] if isinstance(it, ast.Call) and call_name(it) == "enumerate" and it.args else it
+                    if norm(src).endswith(".monomers"):
+                        loop = p_
+                        break
+                    if isinstance(src, ast.Name) or not norm(src).startswith("range"):
+                        # a loop over something else than the list of molecules that binds the molecule
+                        if any(isinstance(y, ast.Name) and y.id in {t_.id for t_ in ast.walk(p_.target) if isinstance(t_, ast.Name)}
+                               for y in ast.walk(c.func)):
+                            loop = p_
+                            break
+                node = p_
+            if loop is None:
+                why = "no loop over the molecules found"
+            else:
+                it = loop.iter
+                src = it.args[0] if isinstance(it, ast.Call) and call_name(it) == "enumerate" and it.args else it
+                over_all = norm(src).endswith(".monomers")
+                if not over_all:
+                    why = "the loop runs over %s, not over the list of all molecules" % norm(src)
+                elif isinstance(it, ast.Call) and call_name(it) == "enumerate" and isinstance(loop.target, ast.Tuple) \
+                        and isinstance(loop.target.elts[0], ast.Name) and loop.target.elts[0].id == idx.id:
+                    ok = True
+                else:
+                    incs = [st for st in loop.body if isinstance(st, ast.AugAssign) and norm(st.target) == idx.id
+                            and isinstance(st.op, ast.Add) and isinstance(st.value, ast.Constant) and st.value.value == 1]
+                    other = [st for st in ast.walk(loop) if isinstance(st, (ast.AugAssign, ast.Assign)) and st not in incs
+                             and any(norm(t_) == idx.id for t_ in (st.targets if isinstance(st, ast.Assign) else [st.target]))]
+                    ok = len(incs) == 1 and not other
+                    why = "the counter %s is not advanced exactly once per molecule" % idx.id
+        run.obligation(rid, "ElectronicState.__init__", ok, key="level-of-this-molecule:" + norm(c)[:40],
+                       message="ElectronicState.__init__ selects the sub-mode with %s, but %s: a molecule without modes placed before one "
+                               "with modes shifts the electronic levels under which the later molecules' modes are looked up"
+                               % (norm(arg), why), loc=f.loc(c))
